@@ -240,6 +240,9 @@ class Repo:
         return None
 
     def mro(self, cname: str) -> List[str]:
+        cache = self.__dict__.setdefault("_mro_cache", {})
+        if cname in cache:
+            return cache[cname]
         out: List[str] = []
 
         def rec(c):
@@ -249,10 +252,14 @@ class Repo:
                     rec(b)
 
         rec(cname)
+        cache[cname] = out
         return out
 
     def subclasses(self, cname: str) -> List[str]:
-        return [c for c in self.classes if cname in self.mro(c) and c != cname]
+        cache = self.__dict__.setdefault("_sub_cache", {})
+        if cname not in cache:
+            cache[cname] = [c for c in self.classes if cname in self.mro(c) and c != cname]
+        return cache[cname]
 
     def find_method(self, cname: str, meth: str) -> Optional[FuncInfo]:
         for c in self.mro(cname):
